@@ -21,10 +21,10 @@ def datahub_stage(v, sd, binary, name, *, ds, ent, contents, preds=("p",), max_b
                   kinds=("ent", "chg", "look"), limits=(0, 1, 2), readers=(), spec="SpecCreated", tables="plain",
                   adapters="go", invariants=CORE_INV, props=CORE_PROPS, classify=None, view="view",
                   sample=False, seed=None, fan=4, stride_extra=1, tlc_timeout=1500, heap="8g", inv_ref=True,
-                  per_world=400, rotate=False, target=None):
+                  per_world=400, rotate=False, target=None, track_pre=False, replay_fn=None):
     """One TLC run of spec/Datahub.tla (exhaustive or simulation) + replay of everything it emitted."""
     consts = {"DsSeq": list(ds), "Ent": set(ent), "MaxBatch": max_batch, "MaxSteps": max_steps, "Acts": set(acts),
-              "ObsKinds": set(kinds), "Limits": set(limits), "Fan": fan, "Precreated": spec.startswith("SpecCreated"), "Writable": set(ds),
+              "ObsKinds": set(kinds), "Limits": set(limits), "Fan": fan, "Precreated": spec.startswith("SpecCreated"), "Writable": set(ds), "TrackPre": track_pre,
               "Readers": set() if not readers else verif.Raw("{" + ", ".join(verif.tla_value(r) for r in readers) + "}")}
     constraint = "Emit"
     if sample:
@@ -42,7 +42,8 @@ def datahub_stage(v, sd, binary, name, *, ds, ent, contents, preds=("p",), max_b
         stride_extra = -(-st["emitted"] // target)
         v.cov["stages"].append({"name": name + ":thinned", "emitted": st["emitted"], "replayed_every": stride_extra})
     tot, results = verif.replay(binary, v.wd, out, tables=tables, adapters=adapters, label=name,
-                                stride_extra=stride_extra, per_world=per_world, rotate=rotate, seed=v.seed)
+                                stride_extra=stride_extra, per_world=per_world, rotate=rotate, seed=v.seed,
+                                **(replay_fn or {}))
     v.add_replay(tot, results, classify=classify, label=name)
     os.remove(out)
     return st, tot
@@ -292,8 +293,10 @@ def check_C07(tier, seed):
                   max_batch=2, max_steps=10 if thorough else 8, acts=acts + ("txn",), tables="plain,eqlen",
                   kinds=kinds, limits=(0, 1), sample=True, seed=seed, fan=5 if thorough else 4, classify=cl(mc),
                   rotate=True, per_world=100, target=30000 if thorough else 3000)
+    # process death at every hook point inside create / rename / delete / gc
+    crash_mgmt_stage(v, sd, binary, thorough, seed)
     v.assumptions = ["queries whose scope names a dataset that does not exist are not asked (reported separately, DESIGN 8.5)",
-                     "crash points inside create/rename/delete are covered by the crash stage of C04"]
+                     "crash = death of the hub process at a verifhook point inside create / rename / delete / gc"]
     return v.finish(rule=RULE_REPLAY)
 
 
@@ -413,10 +416,10 @@ def jobs_stage(v, sd, binary, name, *, ds, ent, contents, jobs, writable, faults
                types=("incremental",), fill=(), max_batch=1, max_steps=3, acts=("store", "job"),
                kinds=("ent", "chg"), limits=(0,), tables="plain", classify=None, sample=False, seed=None, fan=4,
                rotate=True, target=None, per_world=200, props=("Converges", "TokenSafe", "Idempotent"),
-               tlc_timeout=1500):
+               tlc_timeout=1500, track_pre=False, replay_fn=None):
     consts = {"DsSeq": list(ds), "Ent": set(ent), "MaxBatch": max_batch, "MaxSteps": max_steps, "Acts": set(acts),
               "ObsKinds": set(kinds), "Limits": set(limits), "Fan": fan, "Precreated": True,
-              "Writable": set(writable), "Readers": set(),
+              "Writable": set(writable), "Readers": set(), "TrackPre": track_pre,
               "JobSeq": [dict(j, src=list(j["src"])) for j in jobs],
               "JobTypes": set(types), "FillNs": set(fill),
               "Faults": verif.Raw("{" + ", ".join(verif.tla_value(f) for f in faults) + "}")}
@@ -432,7 +435,7 @@ def jobs_stage(v, sd, binary, name, *, ds, ent, contents, jobs, writable, faults
         stride_extra = -(-st["emitted"] // target)
         v.cov["stages"].append({"name": name + ":thinned", "emitted": st["emitted"], "replayed_every": stride_extra})
     tot, results = verif.replay(binary, v.wd, out, tables=tables, adapters="go", label=name, stride_extra=stride_extra,
-                                per_world=per_world, rotate=rotate, seed=v.seed)
+                                per_world=per_world, rotate=rotate, seed=v.seed, **(replay_fn or {}))
     v.add_replay(tot, results, classify=classify, label=name)
     os.remove(out)
     return st, tot
@@ -534,3 +537,59 @@ def check_C10(tier, seed):
                      "transform this is exactly what the transform was given and returned",
                      "JavaScript transforms: identity, duplicate-each, drop-deleted; parallelism applies to incremental runs"]
     return v.finish(rule=RULE_REPLAY)
+
+
+# ----------------------------------------------------------------------------
+# crash stages (C04, crash parts of C07, C08, C12)
+
+CRASH = {"test": "TestCrash", "extra_env": {"VERIF_HITS": "2"}}
+RULE_CRASH = ("for every behaviour emitted by TLC and every hook point of its last step (each at hit counts 1..2, plus a "
+              "kill right after the acknowledgement) a child process executes the behaviour on a fresh store and dies "
+              "there with os.Exit (no Close); the parent reopens the store and compares every read API with the "
+              "specification's state before the interrupted step and after it (acknowledged steps: after it), then "
+              "writes again. evaluations = compared answers; distinct_nontrivial = distinct (behaviour, point, hit) "
+              "triples whose child actually died at the point or completed")
+
+
+def crash_data_stage(v, sd, binary, thorough, seed):
+    mc = mgmt_contents()
+    datahub_stage(v, sd, binary, "CR_data", ds=["a", "b"], ent=["e1", "e2"], contents=mc[:2], max_batch=1,
+                  max_steps=3 if thorough else 2, acts=("store", "txn"), tables="plain,eqlen",
+                  kinds=("ent", "chg", "look", "rel"), limits=(0, 1), classify=classify_c03(mc[:2]),
+                  track_pre=True, replay_fn=CRASH, target=4000 if thorough else 300)
+    datahub_stage(v, sd, binary, "CR_batch", ds=["a"], ent=["e1", "e2"], contents=mc, max_batch=2,
+                  max_steps=2, acts=("store",), tables="plain", kinds=("ent", "chg", "look", "rel"), limits=(0, 1),
+                  classify=classify_c03(mc), track_pre=True, replay_fn=CRASH, target=3000 if thorough else 200)
+
+
+def crash_mgmt_stage(v, sd, binary, thorough, seed):
+    mc = mgmt_contents()
+    datahub_stage(v, sd, binary, "CR_mgmt", spec="SpecCreated", ds=["a", "b"], ent=["e1", "e2"], contents=mc[:2],
+                  max_batch=1, max_steps=3, acts=("store", "create", "delete", "rename", "gc"), tables="plain",
+                  kinds=("ent", "chg", "look", "rel"), limits=(0, 1), classify=classify_c03(mc[:2]), track_pre=True,
+                  replay_fn=CRASH, target=4000 if thorough else 300)
+
+
+def crash_job_stage(v, sd, binary, thorough, seed):
+    jc = job_contents()
+    faults = [{"k": "none"}, {"k": "after", "n": 1}, {"k": "after", "n": 2}]
+    jobs_stage(v, sd, binary, "CR_job", ds=["a", "s"], ent=["e1", "e2"], contents=jc[:3], writable=["a"],
+               jobs=[job("j1", ["a"], "s", batch=1), job("j2", ["a"], "s", batch=2, lo=True)], faults=faults,
+               types=("incremental", "fullsync"), max_steps=4 if thorough else 3, track_pre=True, replay_fn=CRASH,
+               target=3000 if thorough else 200)
+
+
+def check_C04(tier, seed):
+    v = Verdict("C04", tier, seed)
+    v.wd = verif.workdir("C04")
+    sd = verif.spec_copy(v.wd)
+    binary = verif.build_harness(v.wd)
+    thorough = tier == "thorough"
+    crash_data_stage(v, sd, binary, thorough, seed)
+    crash_mgmt_stage(v, sd, binary, thorough, seed)
+    crash_job_stage(v, sd, binary, thorough, seed)
+    v.assumptions = ["crash = death of the hub process at a hook point (os.Exit in the handler, nothing deferred runs); "
+                     "power loss / unsynced page cache is outside (badger SyncWrites=false)",
+                     "an operation counts as acknowledged when its API call returned in the child",
+                     "crash points are the verifhook.Point call sites of commit 7a8f971"]
+    return v.finish(rule=RULE_CRASH, level="model_checking")
